@@ -2,7 +2,7 @@
    Only pinned statements (`Check name : statement`), `Theorem .. exact lemma` and
    `Print Assumptions`.  Models: Bits/Natural.v, Bits/BitIter.v, Bits/BitWriter.v. *)
 From RS Require Import Lib.Tac Lib.Outcome Lib.Bits Lib.ByteSweep
-  Bits.Natural Bits.BitIter Bits.BitWriter Bits.ReaderNat Bits.ReaderFail.
+  Bits.Natural Bits.BitIter Bits.BitWriter Bits.ReaderNat Bits.ReaderFail Bits.WriterFlush.
 Import ListNotations.
 Local Open Scope N_scope.
 
@@ -177,3 +177,22 @@ Theorem C13_reader_u2_state : forall it, bi_inv it ->
   end.
 Proof. exact bi_read_u2_st_spec. Qed.
 Print Assumptions C13_reader_u2_state.
+
+(* flush_all in the middle of a stream: the cached bits go out padded to a whole byte, nothing stays cached,
+   the counter does not count the padding *)
+Theorem C13_flush_all_mid_stream : forall w, bw_inv w ->
+  let w' := bw_flush_all w in
+  bw_inv w' /\ bw_cache_len w' = 0 /\ bw_total w' = bw_total w /\
+  bw_bits w' = bw_bits w ++ repeat false (pad_of (bw_cache_len w)).
+Proof. exact bw_flush_all_bits. Qed.
+Print Assumptions C13_flush_all_mid_stream.
+
+(* any number of write sequences, each followed by flush_all, read back through the bit reader: the
+   segments in order, each padded with zeros to a whole byte *)
+Theorem C13_writer_segments_reader : forall segs,
+  let w := write_segments segs bw_new in
+  bytes_ok (bw_out w) /\
+  bw_total w = N.of_nat (length (concat segs)) /\
+  bi_remaining (biter_of_bytes (bw_out w)) = concat (map pad8 segs).
+Proof. exact writer_segments_reader. Qed.
+Print Assumptions C13_writer_segments_reader.
